@@ -3,12 +3,14 @@
 // carrying the instance so that an execution that dies (sanitizer, abort) can still be replayed.
 //   record_algo out=<trace> scen=<rowhist|transport|t1d> seed=<n> first=<k> runs=<n>
 //   record_algo out=<trace> replay=<file with one AlgoBegin line>
+#include <cmath>
 #include <cstring>
 #include <fstream>
 #include <map>
 
 #include "gen.hpp"
 #include "place_detailed/row_legalizer.hpp"
+#include "place_global/density_legalizer.hpp"
 #include "place_global/transportation.hpp"
 #include "place_global/transportation_1d.hpp"
 #include "project.hpp"
@@ -147,6 +149,54 @@ static Value genT1d(vg::Rng &r) {
   return o;
 }
 
+// C16: regions (free rows after margin), bin size, cell demands (zeros included), float targets, a sequence of operations
+static Value genDensity(vg::Rng &r) {
+  int H = (int)r.pick(std::vector<int>{1, 2, 4, 8});
+  int nRows = (int)r.in(1, 7);
+  int ox = (int)r.in(-30, 30), oy = (int)r.in(-10, 10) * H;
+  int W = (int)r.in(3, 60);
+  Value regions = Value::array();
+  int y = oy;
+  for (int k = 0; k < nRows; ++k) {
+    if (k > 0 && r.chance(0.2)) y += H * (int)r.in(1, 2);  // gap between rows
+    int x0 = ox + (r.chance(0.3) ? (int)r.in(0, W / 3) : 0), x1 = ox + W - (r.chance(0.3) ? (int)r.in(0, W / 3) : 0);
+    if (x1 <= x0) x1 = x0 + 1;
+    if (r.chance(0.25) && x1 - x0 >= 4) {
+      int c0 = (int)r.in(x0 + 1, x1 - 2), c1 = (int)r.in(c0 + 1, x1 - 1);  // an obstruction cuts the row
+      regions.push(Value::array().push(x0).push(c0).push(y).push(y + H));
+      regions.push(Value::array().push(c1).push(x1).push(y).push(y + H));
+    } else {
+      regions.push(Value::array().push(x0).push(x1).push(y).push(y + H));
+    }
+    y += H;
+  }
+  int bin = (int)std::max<long long>(1, r.in(1, 5) * H + (r.chance(0.3) ? r.in(0, 3) : 0));
+  int n = (int)r.in(1, 24);
+  std::vector<int> dem(n);
+  Value tx = Value::array(), ty = Value::array();
+  for (int i = 0; i < n; ++i) {
+    dem[i] = r.chance(0.15) ? 0 : (int)r.in(1, 3 * H * H + 2);
+    double p = r.real(0, 1);
+    // targets as integers / 4 (exact floats): inside, outside, coincident
+    long long x = p < 0.2 ? (long long)(ox + W / 2) * 4 : p < 0.4 ? r.in((ox - 3 * W) * 4, (ox + 4 * W) * 4) : r.in(ox * 4, (ox + W) * 4);
+    long long yy = p < 0.2 ? (long long)oy * 4 : p < 0.4 ? r.in((oy - 40) * 4, (y + 40) * 4) : r.in(oy * 4, y * 4);
+    tx.push(x);
+    ty.push(yy);
+  }
+  static const char *ops[] = {"run", "refine", "improve", "refineX", "refineY", "coarsenX", "coarsenY", "coarsenFully", "refineFully", "retarget"};
+  Value seq = Value::array();
+  int nOps = (int)r.in(2, 10);
+  for (int k = 0; k < nOps; ++k) seq.push(ops[r.in(0, 9)]);
+  Value pr = Value::object();
+  pr.set("cost", r.in(0, 5)).set("steps", r.in(0, 2));
+  int ls = (int)r.pick(std::vector<int>{1, 2, 3, 8}), ds = (int)r.pick(std::vector<int>{1, 2, 3, 8}), ss = (int)r.in(1, 4);
+  pr.set("line", ls).set("lineO", ls > 1 ? r.in(1, ls - 1) : 1).set("diag", ds).set("diagO", ds > 1 ? r.in(1, ds - 1) : 1);
+  pr.set("square", ss).set("squareO", ss > 1 ? r.in(1, ss - 1) : 1).set("t1d", r.chance(0.5)).set("quad", r.in(0, 3)).set("coarsen", r.pick(std::vector<int>{1, 10, 100}));
+  Value v = Value::object();
+  v.set("regions", regions).set("bin", bin).set("demands", Value::from(dem)).set("tx4", tx).set("ty4", ty).set("ops", seq).set("params", pr);
+  return v;
+}
+
 // Potentials on the sinks (Bellman-Ford over the residual graph): an untrusted optimality certificate that TLC checks.
 static std::vector<long long> potentials(const std::vector<long long> &cap, const std::vector<std::vector<long long>> &cost,
                                          const std::vector<std::vector<long long>> &alloc) {
@@ -263,7 +313,110 @@ static void runT1d(int run, const Value &in) {
   vt::emit(ev);
 }
 
+static void logHier(int run, int step, const std::string &op, bool skipped, const DensityLegalizer &leg, const Value &in,
+                    const std::vector<float> &tx, const std::vector<float> &ty) {
+  Value ev = vt::ev("Hier");
+  ev.set("run", run).set("step", step).set("op", op).set("skipped", skipped).set("regions", in["regions"]).set("demands", in["demands"]);
+  ev.set("lx", leg.levelX()).set("ly", leg.levelY()).set("nlx", leg.nbLevelX()).set("nly", leg.nbLevelY());
+  Value limX = Value::array(), limY = Value::array();
+  for (int i = 0; i <= leg.nbBinsX(); ++i) limX.push(leg.binLimitX(i));
+  for (int j = 0; j <= leg.nbBinsY(); ++j) limY.push(leg.binLimitY(j));
+  ev.set("limX", limX).set("limY", limY);
+  Value bins = Value::array();
+  for (int i = 0; i < leg.nbBinsX(); ++i)
+    for (int j = 0; j < leg.nbBinsY(); ++j) {
+      Value b = Value::object();
+      std::vector<int> cs = leg.binCells(i, j);
+      for (auto &c : cs) c += 1;
+      b.set("i", i + 1).set("j", j + 1).set("cap", leg.binCapacity(i, j)).set("cells", Value::from(cs));
+      bins.push(b);
+    }
+  ev.set("bins", bins);
+  // per cell: the bin the object reports and the spread coordinate, as floor / ceil integers
+  std::vector<float> sx = leg.spreadCoordX(tx), sy = leg.spreadCoordY(ty);
+  Value cells = Value::array();
+  for (int c = 0; c < leg.nbCells(); ++c) {
+    Value e = Value::object();
+    e.set("bx", leg.cellBinX(c) + 1).set("by", leg.cellBinY(c) + 1);
+    e.set("sx0", (long long)std::floor(sx[c])).set("sx1", (long long)std::ceil(sx[c]));
+    e.set("sy0", (long long)std::floor(sy[c])).set("sy1", (long long)std::ceil(sy[c]));
+    cells.push(e);
+  }
+  ev.set("cells", cells).set("totalCap", leg.totalCapacity());
+  vt::emit(ev);
+}
+
+static void runDensity(int run, const Value &in) {
+  std::vector<Rectangle> regions;
+  for (size_t k = 0; k < in["regions"].size(); ++k) {
+    const Value &q = in["regions"][k];
+    regions.emplace_back((int)q[0].asInt(), (int)q[1].asInt(), (int)q[2].asInt(), (int)q[3].asInt());
+  }
+  DensityGrid grid((int)in["bin"].asInt(), regions);
+  std::vector<int> dem = in["demands"].ints();
+  DensityLegalizer::Parameters p;
+  const Value &pr = in["params"];
+  p.costModel = (LegalizationModel)pr["cost"].asInt();
+  p.nbSteps = (int)pr["steps"].asInt();
+  p.lineReoptSize = (int)pr["line"].asInt();
+  p.lineReoptOverlap = (int)pr["lineO"].asInt();
+  p.diagReoptSize = (int)pr["diag"].asInt();
+  p.diagReoptOverlap = (int)pr["diagO"].asInt();
+  p.squareReoptSize = (int)pr["square"].asInt();
+  p.squareReoptOverlap = (int)pr["squareO"].asInt();
+  p.unidimensionalTransport = pr["t1d"].asBool() && p.costModel == LegalizationModel::L1;
+  p.quadraticPenaltyFactor = pr["quad"].asInt() * 0.001;
+  p.coarseningLimit = (double)pr["coarsen"].asInt();
+  DensityLegalizer leg(grid, dem, p);
+  std::vector<float> tx, ty;
+  for (long long v : in["tx4"].longs()) tx.push_back((float)v * 0.25f);
+  for (long long v : in["ty4"].longs()) ty.push_back((float)v * 0.25f);
+  leg.updateCellTargetX(tx);
+  leg.updateCellTargetY(ty);
+  logHier(run, 0, "init", false, leg, in, tx, ty);
+  const Value &ops = in["ops"];
+  for (size_t k = 0; k < ops.size(); ++k) {
+    std::string op = ops[k].asStr();
+    bool skipped = false;
+    if (op == "run") leg.run();
+    else if (op == "improve") leg.improve();
+    else if (op == "refine") { if (leg.levelX() >= 1 || leg.levelY() >= 1) leg.refine(); else skipped = true; }
+    else if (op == "refineX") { if (leg.levelX() >= 1) leg.refineX(); else skipped = true; }
+    else if (op == "refineY") { if (leg.levelY() >= 1) leg.refineY(); else skipped = true; }
+    else if (op == "coarsenX") { if (leg.levelX() + 1 < leg.nbLevelX()) leg.coarsenX(); else skipped = true; }
+    else if (op == "coarsenY") { if (leg.levelY() + 1 < leg.nbLevelY()) leg.coarsenY(); else skipped = true; }
+    else if (op == "coarsenFully") leg.coarsenFully();
+    else if (op == "refineFully") leg.refineFully();
+    else if (op.rfind("move:", 0) == 0) {
+      // contract-level redistribution from the specification: cell c goes to bin (i, j) of the current view
+      int c, bi, bj;
+      if (sscanf(op.c_str(), "move:%d:%d:%d", &c, &bi, &bj) == 3 && bi <= leg.nbBinsX() && bj <= leg.nbBinsY()) {
+        --c; --bi; --bj;
+        int ox = leg.cellBinX(c), oy = leg.cellBinY(c);
+        if (ox >= 0 && oy >= 0) {
+          std::vector<int> src = leg.binCells(ox, oy);
+          src.erase(std::remove(src.begin(), src.end(), c), src.end());
+          leg.setBinCells(ox, oy, src);
+        }
+        std::vector<int> dst = leg.binCells(bi, bj);
+        dst.push_back(c);
+        leg.setBinCells(bi, bj, dst);
+      } else skipped = true;
+    }
+    else if (op == "retarget") {
+      // new targets (rotated), as the global placer does between steps
+      std::rotate(tx.begin(), tx.begin() + (tx.size() > 1 ? 1 : 0), tx.end());
+      leg.updateCellTargetX(tx);
+    }
+    logHier(run, (int)k + 1, op, skipped, leg, in, tx, ty);
+  }
+}
+
 static void execute(const std::string &scen, int run, const Value &in) {
+  if (scen == "density") {
+    runDensity(run, in);
+    return;
+  }
   if (scen == "rowhist") runRowHist(run, in);
   else if (scen == "transport") runTransport(run, in);
   else if (scen == "t1d") runT1d(run, in);
@@ -346,7 +499,7 @@ int main(int argc, char **argv) {
   long long seed = argi("seed", 1), first = argi("first", 0), runs = argi("runs", 10);
   for (long long k = first; k < first + runs; ++k) {
     vg::Rng r((uint64_t)seed * 1000003ULL + (uint64_t)k);
-    Value in = scen == "rowhist" ? genRowHist(r) : scen == "transport" ? genTransport(r, argi("big", 0)) : genT1d(r);
+    Value in = scen == "rowhist" ? genRowHist(r) : scen == "transport" ? genTransport(r, argi("big", 0)) : scen == "density" ? genDensity(r) : genT1d(r);
     Value begin = vt::ev("AlgoBegin");
     begin.set("run", (long long)k).set("scen", scen).set("inst", in);
     vt::emit(begin);
